@@ -28,6 +28,7 @@ func runC05(c *Ctx) {
 	c05R5(c)
 	c08Lockstep(c, c.R.Rule("R6", "K10 aligned parallel arrays: Batch.sub/clone never alias the parent's slices and every batch constructor keeps records/statuses/positions aligned (shared with C08.R1)", 8))
 	c05R7(c)
+	c05R12(c)
 	c08R9As(c, c.R.Rule("R8", "K6 (= C08.R9) a filtered record stays absent: with filtered records present, Batch.setFlagNoErr/setFlagWithErr address recordStatuses only through the active-index map, entry by entry (a span marked Retry/Ack never overwrites a filtered slot)", 4))
 	c08R11As(c, c.R.Rule("R10", "K8/K3 (= C08.R11) v1: a filtered record stays absent behind a fan-out — Message.Clone carries every Message field DestinationNode.Run reads to decide on the write, and Destination.Write happens only on the !msg.filtered edge", 3))
 	c01R4As(c, c.R.Rule("R9", "K3 (= C01.R4) no silent re-write: DestinationTask.Do returns nil only when every written position was confirmed (it never converts a partially confirmed write into a retry of records already handed to Write)", 4))
